@@ -55,6 +55,64 @@ def make_shape(prop, ename, variant, how, kinds, optmask, copt=False):
     return sh
 
 
+def pair_shape(first, second, first_mode):
+    """Two resource constraints on the same worker: `first` is declared optional (and may be left
+    unapplied) or is only the operand of a Not; `second` is mandatory and must hold whatever happens to
+    the first one (shared caches / shared auxiliaries between constraints of one resource)."""
+    e1, v1 = first
+    e2, v2 = second
+    name = f"pair/{e1}_{first_mode}+{e2}/" + ",".join(f"{k}={v}" for k, v in sorted(v2.items()))
+
+    def build(P):
+        pb, hv = new_problem(P, False)
+        tis = _tasks(P, ("fixed", "var", "fixed"), (False, False, False))
+        res, busy, named = setup_resource(P, tis, "worker")
+        # the two constraints use differently named parameters
+        P1 = _Prefixed(P, "f_")
+        c1 = RELEMENTS[e1].build(P1, res, optional=(first_mode == "optional"), **v1)
+        # the element builders name their constraint "rc": re-key the first one in the problem's registry
+        pb.constraints["rc_first"] = pb.constraints.pop("rc")
+        c1.name = "rc_first"
+        if first_mode == "negated":
+            ps.Not(name="not_first", constraint=c1)
+        c2 = RELEMENTS[e2].build(P, res, **v2)
+        named["applied_first"] = c1._applied
+        return Ctx(problem=pb, tis=tis, res=res, busy=busy, c1=c1, c2=c2, named=named)
+
+    def obligations(ctx):
+        guard = []
+        if getattr(RELEMENTS[e2], "order_based", False):
+            guard += [And(bs >= 0, be > bs) for _, (bs, be) in ctx.busy]
+        obs = [Ob(f"{PROP}/{name}/{cn}", "sound", clause=cl, guard=And(guard)) for cn, cl in RELEMENTS[e2].must(ctx.P, ctx.busy, ctx.tis, **v2)]
+        if first_mode == "optional":
+            obs += [Ob(f"{PROP}/{name}/first_unapplied/{cn}", "sound", clause=cl, guard=And(guard + [Not(ctx.c1._applied)]))
+                    for cn, cl in RELEMENTS[e2].must(ctx.P, ctx.busy, ctx.tis, **v2)]
+        return obs
+
+    sh = Shape(name, build, obligations)
+    sh.assumptions = lambda P: RELEMENTS[e2].assume(P, **v2)
+    return sh
+
+
+class _Prefixed:
+    """Params view that prefixes every parameter name (two constraints of one shape)."""
+
+    def __init__(self, P, prefix):
+        self._P, self._prefix = P, prefix
+
+    def int(self, name, **kw):
+        return self._P.int(self._prefix + name, **kw)
+
+    def term(self, name, **kw):
+        return self._P.term(self._prefix + name, **kw)
+
+    def v(self, name):
+        return self._P.v(self._prefix + name)
+
+    def __getattr__(self, a):
+        return getattr(self._P, a)
+
+
 def shape_workers_rel(cls, nworkers, common):
     """SameWorkers / DistinctWorkers over two selections sharing `common` workers."""
     name = f"{cls}/{nworkers}w/common{common}"
@@ -124,6 +182,19 @@ def shapes(tier):
     for cls in ("SameWorkers", "DistinctWorkers"):
         for nw, common in ((2, 2), (3, 2), (3, 1)) + (((4, 3),) if thorough else ()):
             out.append(shape_workers_rel(cls, nw, common))
+    # pairs of constraints on one worker
+    firsts = [("ResourceNonDelay", {}), ("ResourceTasksDistance", dict(mode="min", nints=0)), ("ResourceUnavailable", dict(nints=1)),
+              ("WorkLoad", dict(kind="max", nints=1))]
+    seconds = [("ResourceTasksDistance", dict(mode="min", nints=0)), ("ResourceTasksDistance", dict(mode="exact", nints=0)), ("ResourceNonDelay", {}),
+               ("ResourceUnavailable", dict(nints=1)), ("WorkLoad", dict(kind="max", nints=1)), ("WorkLoad", dict(kind="min", nints=1))]
+    for f in firsts:
+        for sd in seconds:
+            for mode in ("optional", "negated"):
+                if not thorough and mode == "negated" and f[0] not in ("ResourceNonDelay", "ResourceTasksDistance"):
+                    continue
+                if f[0] == sd[0] == "ResourceNonDelay":
+                    continue
+                out.append(pair_shape(f, sd, mode))
     return out
 
 
